@@ -77,6 +77,8 @@ func c11Menu(c lockCfg, thorough bool) func(w *engb.World, st *engb.LState, dept
 	if len(c.Powers) > 1 {
 		base = append(base, engb.LBlock{Dt: 1, Absent: []int{0, 1}})
 	}
+	// the chain restarted from an exported state in mid-history: for the reference model a no-op
+	base = append(base, engb.LBlock{Dt: 1, Reimport: true})
 	return func(w *engb.World, st *engb.LState, depth int) []engb.LBlock { return base }
 }
 
